@@ -19,7 +19,13 @@
              <<"set",x,e>> <<"begin",es>> <<"letrec",names,inits,body>> <<"prim",name,args>>
              <<"callcc",f>> <<"dw",b,t,a>> <<"weh",h,t>> <<"raise",e>> <<"raisec",e>>
              <<"mkparam",init,conv>> <<"paramz",ps,vs,body>> <<"values",es>> <<"cwv",p,c>>
-             <<"apply",f,l>> <<"emit",e>> *)
+             <<"apply",f,l>> <<"emit",e>>
+             <<"delayf",e>> (delay-force e)   <<"mkprom",e>> (make-promise e)   <<"force",e>>
+   Promises (R7RS 4.2.5 and the reference implementation of 7.3): a promise value <<"prom",p>> names a store cell
+   <<"pref",c>> that points to a content cell <<"pc",done,payload>> (payload = the value, or the thunk still to run);
+   forcing runs the thunk, which must deliver another promise, makes the forced promise SHARE that promise's content
+   (unless it was forced meanwhile, re-entrantly: then the first value stays) and loops WITHOUT keeping a frame: a chain of
+   delay-force steps is forced in constant continuation depth.  (delay e) is (delay-force (make-promise e)). *)
 EXTENDS Integers, Sequences, FiniteSets, TLC, SequencesExt
 
 CONSTANTS Programs,   \* sequence of records [id, prog]
@@ -89,6 +95,7 @@ Prim(name, vs) ==
     [] name = "null?" -> Bool(Tag(vs[1]) = "nil")
     [] name = "pair?" -> Bool(Tag(vs[1]) = "p")
     [] name = "procedure?" -> Bool(Tag(vs[1]) \in {"clo", "k", "param"})
+    [] name = "promise?" -> Bool(Tag(vs[1]) = "prom")
     [] name = "eq?" -> Bool(Eqv(vs[1], vs[2]))
     [] name = "eqv?" -> Bool(Eqv(vs[1], vs[2]))
     [] name = "equal?" -> Bool(Equal(vs[1], vs[2]))
@@ -194,6 +201,17 @@ Dispatch(tag, extra, vs) ==
           IF IsList(vs[2]) THEN /\ ctl' = <<"call", vs[1], SeqOfList(vs[2])>>
                                 /\ UNCHANGED <<env, store, k, winds, hs, params, out, nid, status>>
           ELSE DoRaise(Err("type"), FALSE)
+     [] tag = "mkprom" ->     \* a promise is returned as it is, any other value becomes an already forced promise
+          IF Tag(vs[1]) = "prom" THEN Ret(vs[1]) /\ UNCHANGED <<env, store, k, winds, hs, params, out, nid, status>>
+          ELSE /\ store' = store \o << <<"pc", 1, vs[1]>>, <<"pref", Len(store) + 1>> >>
+               /\ Ret(<<"prom", Len(store) + 2>>)
+               /\ UNCHANGED <<env, k, winds, hs, params, out, nid, status>>
+     [] tag = "force" ->      \* vs = <<v>>: not a promise: v itself; forced: its value; else run the thunk under a "force" frame
+          IF Tag(vs[1]) # "prom" THEN Ret(vs[1]) /\ UNCHANGED <<env, store, k, winds, hs, params, out, nid, status>>
+          ELSE LET cell == store[store[vs[1][2]][2]] IN
+               IF cell[2] = 1 THEN Ret(cell[3]) /\ UNCHANGED <<env, store, k, winds, hs, params, out, nid, status>>
+               ELSE /\ k' = Append(k, <<"force", vs[1]>>) /\ ctl' = <<"call", cell[3], <<>>>>
+                    /\ UNCHANGED <<env, store, winds, hs, params, out, nid, status>>
      [] OTHER -> DoRaise(Err("bad-dispatch"), FALSE)
 
 \* one step of evaluating expression e
@@ -236,6 +254,12 @@ StepEv(e) ==
                              /\ UNCHANGED <<store, winds, hs, params, out, nid, status>>
      [] Tag(e) = "cwv" -> StartSeq("cwv", <<>>, <<e[2], e[3]>>, env) /\ UNCHANGED <<store, winds, hs, params, out, nid, status>>
      [] Tag(e) = "apply" -> StartSeq("apply", <<>>, <<e[2], e[3]>>, env) /\ UNCHANGED <<store, winds, hs, params, out, nid, status>>
+     [] Tag(e) = "delayf" ->     \* a fresh promise whose content is the thunk (lambda () e)
+          /\ store' = store \o << <<"pc", 0, <<"clo", <<>>, "", e[2], env>>>>, <<"pref", Len(store) + 1>> >>
+          /\ Ret(<<"prom", Len(store) + 2>>)
+          /\ UNCHANGED <<env, k, winds, hs, params, out, nid, status>>
+     [] Tag(e) = "mkprom" -> StartSeq("mkprom", <<>>, <<e[2]>>, env) /\ UNCHANGED <<store, winds, hs, params, out, nid, status>>
+     [] Tag(e) = "force" -> StartSeq("force", <<>>, <<e[2]>>, env) /\ UNCHANGED <<store, winds, hs, params, out, nid, status>>
      [] OTHER -> DoRaise(Err("bad-expression"), FALSE)
 
 \* a value v is returned to the top frame
@@ -281,6 +305,14 @@ StepVal(v) ==
                   /\ UNCHANGED <<env, store, winds, hs, params, out, nid, status>>
              [] fr[1] = "cwv" -> /\ k' = rest /\ ctl' = <<"call", fr[2], IF Tag(v) = "mv" THEN v[2] ELSE <<v>>>>
                                  /\ UNCHANGED <<env, store, winds, hs, params, out, nid, status>>
+             [] fr[1] = "force" ->     \* the thunk of promise fr[2] delivered v: share v's content (unless forced meanwhile), force again - no frame is kept
+                  IF Tag(v) # "prom" THEN /\ k' = rest /\ ctl' = <<"raise2">> /\ UNCHANGED <<env, store, winds, hs, params, out, nid, status>>
+                  ELSE LET c == store[fr[2][2]][2]
+                           c2 == store[v[2]][2]
+                       IN /\ k' = rest
+                          /\ store' = IF store[c][2] = 0 THEN [store EXCEPT ![c] = store[c2], ![v[2]] = <<"pref", c>>] ELSE store
+                          /\ ctl' = <<"dispatch", "force", <<>>, <<fr[2]>>>>
+                          /\ UNCHANGED <<env, winds, hs, params, out, nid, status>>
              [] fr[1] = "travelk" ->   \* a before/after thunk of a throw returned: go on travelling
                   /\ k' = rest /\ ctl' = <<"travel", fr[2], fr[3], fr[4]>>
                   /\ UNCHANGED <<env, store, winds, hs, params, out, nid, status>>
